@@ -4,6 +4,7 @@ import (
 	"encoding/hex"
 	"encoding/json"
 	"fmt"
+	"sort"
 	"strconv"
 	"strings"
 	"time"
@@ -59,7 +60,15 @@ func (gn *GlobalNode) Decode(input []byte) error {
 }
 
 func (gn *GlobalNode) updateConfig(fields map[string]string) error {
-	for key, value := range fields {
+	// process the keys in a fixed order: with more than one bad entry every node must
+	// fail on the same one (the error text becomes the transaction output)
+	keys := make([]string, 0, len(fields))
+	for k := range fields {
+		keys = append(keys, k)
+	}
+	sort.Strings(keys)
+	for _, key := range keys {
+		value := fields[key]
 		switch key {
 		case Settings[PourAmount]:
 			fAmount, err := strconv.ParseFloat(value, 64)
